@@ -86,7 +86,7 @@ ENGINES = [
   {"name": "dbsim-store", "path": "sim/ksim-db/src/store.rs", "serves_properties": ["C04"], "kind_free_text": "store-API history simulator"},
   {"name": "dbsim-dict", "path": "sim/ksim-db/src/dict.rs", "serves_properties": ["C15"], "kind_free_text": "dictionary / union history simulator"},
   {"name": "hybsim", "path": "sim/ksim-core/src/hybsim.rs", "serves_properties": ["C08"], "kind_free_text": "lineage/controller simulator under a scripted HybridClock"},
-  {"name": "dlsim", "path": "sim/ksim-core/src/dlsim.rs", "serves_properties": ["C05", "C12", "C19"], "kind_free_text": "Datalog reasoner simulator (simulated rayon pool, hash seeds, evaluation clock)"},
+  {"name": "dlsim", "path": "sim/ksim-core/src/dlsim.rs", "serves_properties": ["C05", "C12", "C19"], "kind_free_text": "Datalog reasoner simulator (simulated rayon pool, hash seeds, evaluation clock); C05 and C19 run from ksim-core, C12 is compiled into ksim-db (sim/ksim-db/src/rsp.rs wraps it)"},
   {"name": "sddsim", "path": "sim/ksim-core/src/sddsim.rs", "serves_properties": ["C07"], "kind_free_text": "operation-history simulator over SddManager with budget-closure fault injection"},
 ]
 def main():
@@ -106,7 +106,7 @@ def main():
     m = {"version": 1,
          "setup_cmd": "cd /verif && ./check build all",
          "hooks": {"guard": "kolibrie_verif", "enable": "RUSTFLAGS=--cfg kolibrie_verif via /verif/sim/.cargo/config.toml; shadow manifests under /verif/sim/shadow compile /repo/<crate>/src in place with rayon->sim-rayon, crossbeam->sim-crossbeam",
-                   "baseline_off_cmd": "cd /repo && (cargo nextest run --workspace --no-fail-fast --test-threads 8 --offline || cargo test --workspace --no-fail-fast --offline)",
+                   "baseline_off_cmd": "cd /repo && cargo nextest run --workspace --no-fail-fast --test-threads 8 --offline",
                    "source_commits": hooks, "add_only": True},
          "engines": [e for e in ENGINES if any(p in CHECKS for p in e["serves_properties"])],
          "checks": checks,
